@@ -331,7 +331,11 @@ fn eval_isolated_after(check: &dyn Check, scenario: &Value, history: Option<&His
 
 /// Harness binary for a build mode.
 pub fn exe_for_mode(mode: &str) -> PathBuf {
-    verif_dir().join("target").join(if mode == "relchk" { "relchk" } else { "release" }).join("vsim")
+    verif_dir().join("target").join(match mode {
+        "relchk" => "relchk",
+        "relovf" => "relovf",
+        _ => "release",
+    }).join("vsim")
 }
 
 fn exe_for_scenario(check: &dyn Check, scenario: &Value) -> PathBuf {
@@ -662,16 +666,19 @@ fn supervise(check: &'static dyn Check, tier: Tier) -> i32 {
         }
     }
     let mut workers = nworkers().min(n.max(1));
+    let modes = check.modes();
     if check.dual_mode() {
-        // index parity decides the build mode; with an even shard count, shard parity = index parity
-        workers = (workers / 2 * 2).max(2);
+        // index modulo the number of modes decides the build mode; with a shard count that is a
+        // multiple of it, shard modulo = index modulo
+        let m = modes.len() as u64;
+        workers = (workers / m * m).max(m);
     }
     let dir = work_dir();
     println!("check {id} tier={} VERIF_SEED={seed} scenarios={n} workers={workers}", tier.name());
     let exe = std::env::current_exe().unwrap();
     let mut children = Vec::new();
     for shard in 0..workers {
-        let wexe = if check.dual_mode() { exe_for_mode(if shard % 2 == 1 { "relchk" } else { "release" }) } else { exe.clone() };
+        let wexe = if check.dual_mode() { exe_for_mode(modes[(shard % modes.len() as u64) as usize]) } else { exe.clone() };
         let child = Command::new(&wexe)
             .args([
                 "worker",
